@@ -241,6 +241,12 @@ class C07(CheckBase):
                             v['title'] = bytes(rng.choice([0x09, 0x0A, 0x0D, 0x1B, 0x7F, 0x80 | 0x41, 0x41, 0x20]) for _ in range(rng.randint(1, 12)))
         elif src == 'genflux':
             fc, dmg = fluxwork.gen_hostile_flux(rng, sides=rng.weighted([(4, 1), (1, 2)]))
+            if fc['container'] != 'mfm' and rng.chance(0.1):
+                # header fields that no track consults: an image of one or two tracks whose track 0 declares its own
+                # encoding on every side, with a global encoding byte that means nothing
+                fc['tracks'] = rng.choice([1, 1, 2])
+                fc['alt0'] = list(range(fc['sides']))
+                fc['hdr'] = {'11': rng.choice([0xFF, 4, 0x80, 3])}
             variants = ['acorn', 'acorn', 'watford'] + (['opus', 'opus'] if fc['spt'] == 18 else [])
             surfaces = [dd.gen_surface(rng, variant=rng.choice(variants), geom=(fc['tracks'], fc['spt']), img_id=8, side=sd).to_json() for sd in range(fc['sides'])]
             if rng.chance(0.4):
